@@ -63,28 +63,28 @@ P = {
         text="Decides for the C and C++ support headers: every store into a caller's buffer by a set primitive is dominated by a size-vs-(offset+length) comparison that returns the buffer-too-small error and covers the stored extent (wrappers pass buffer/size/offset through unchanged); every read uses a length saturated against the primitive's own size/offset (or copyTo's clamp) and lands in a zero-initialised local large enough for it; the saturation constant, local capacity, return type and name agree on W, getI<W> delegates to getU<W>, shifted literals are wide enough; remaining-bits subtractions cannot wrap; partial-byte stores in the raw copy are masked read-modify-writes and whole-byte moves cover floor(len/8) bytes; endianness-neutral byte tables follow wire order; bitspan::setZeros clears ceil((offset%8+len)/8) bytes and preserves the bits below the offset; the four getI widths are one routine up to W; C and C++ float16 pack/unpack are the same computation. For the Python support module (rendered statically, parsed with ast): every add_*/fetch_* method moves the bit cursor by exactly the bits it addresses (linear-form evaluation of its effect on _bit_offset through loops and delegated calls), u<W>/i<W>/f<W> width tables, complementary shift pairs and 8-bit mask of the unaligned byte copy and its reader, value / most-significant-byte masks, zero extension of out-of-range reads and alignment assertions before direct indexing. Bit-exact results for all offsets/lengths/values and float16 rounding quality are declined (numerical; exhaustive enumeration is a dynamic technique).",
         note="Trusted: clang 14 parser/JSON dump; expansion of the support template by the repository's own generator is a build step (no DSDL type, nothing compiled to an executable or run).", ref="4/C14"),
     "C15": dict(
-        tech="driver model (carriers, terminator recogniser, scanned text) extracted from the line splitter, regex-language computation over the terminator pattern's AST, per-execution-path contracts of the line post-processors with counter replay",
-        text="Decides: every completed line and the non-empty final remainder reach _filter_and_write_line, which applies all processors in list order and writes line then terminator; the splitter recognises exactly LF and CRLF (regex language; str.splitlines is rejected) and either scans carried text plus chunk or re-joins a terminator cut at a chunk boundary; no chunk text is dropped between chunks; on every path TrimTrailingWhitespace keeps the terminator and returns the line cut at an end-anchored all-whitespace match (or rstrip()), unchanged only where no trailing whitespace exists; on every path LimitEmptyLines zeroes its counter and passes a non-empty line, counts an empty line once and elides it exactly when the count exceeds N; the header copier does not drop characters. Equivalence for all texts and chunk schedules is declined.",
+        tech="driver model (carriers, terminator recogniser, scanned text) extracted from the line splitter, regex-language computation over the terminator pattern's AST, per-execution-path contracts of the line post-processors with counter replay, dominance/loop-nesting rule for the per-file reset",
+        text="Decides: every completed line and the non-empty final remainder reach _filter_and_write_line, which applies all processors in list order and writes line then terminator; the splitter recognises exactly LF and CRLF (regex language; str.splitlines is rejected) and either scans carried text plus chunk or re-joins a terminator cut at a chunk boundary; no chunk text is dropped between chunks; on every path TrimTrailingWhitespace keeps the terminator and returns the line cut at an end-anchored all-whitespace match (or rstrip()), unchanged only where no trailing whitespace exists; on every path LimitEmptyLines zeroes its counter and passes a non-empty line, counts an empty line once and elides it exactly when the count exceeds N; the header copier does not drop characters; on the way to every file opened for writing whose body applies a processor list a reset() loop over that very list runs once per file (same function or every caller, inside all surrounding loops). Equivalence for all texts and chunk schedules is declined.",
         note="Trusted: CPython ast, re._parser.", ref="4/C15"),
     "C16": dict(
         tech="ordering and who-may-write rules on the loader and environment (precedence, guarded insertion of user names, test table construction)",
-        text="Decides: file-system loader is consulted before the package loader on every path (straight-line or loop form) and the package listing only when the first search found nothing; ancestor search starts at the class, is FIFO over __bases__ and matches a class to the template carrying its own name; the class -> template memo is filled only for the class whose own name selected the template; user filters/tests enter only through _add_to_environment which raises on collisions; user globals are checked against every existing global and are not overwritten later; class-name tests and aliases are bound to one predicate, an alias drops a Type/Field suffix only when the name ends with it and something is left, and aliases do not collide. The resolution function over all histories is declined.",
+        text="Decides: in get_source the package loader is reached, path by path, only where no file-system loader exists or inside the handler of the file-system loader's own failed lookup; type_to_template searches the file-system listing first (straight-line or loop form) and the package listing only when the first search found nothing; ancestor search starts at the class, is FIFO over __bases__ and matches a class to the template carrying its own name; the class -> template memo is filled only for the class whose own name selected the template; user filters/tests enter only through _add_to_environment which raises on collisions; user globals are checked against every existing global after all built-in globals were installed (element-wise, or wholesale straight after a raising membership test with no installer in between) and are not overwritten later; class-name tests and aliases are bound to one predicate, an alias drops a Type/Field suffix only when the name ends with it and something is left, and aliases do not collide. The resolution function over all histories is declined.",
         note="Trusted: CPython ast; pydsdl class hierarchy for the alias table.", ref="4/C16"),
     "C17": dict(
         tech="sibling agreement between support-header option definitions and type-header option assertions (unfiltered iteration, same name/value transformations) + value-type exhaustiveness",
-        text="Decides: both sides iterate options.items() unfiltered and use the same name and value transformations (string building normalised); to_static_assertion_value handles every value type occurring in properties.yaml options and fails otherwise; documented string choices map to distinct constants and no per-language validation hook stores a fixed value over a configured option; assertions are emitted exactly when the support header is included and outside any further preprocessor conditional. The compiler's rejection itself is declined.",
+        text="Decides: both sides iterate options.items() unfiltered and use the same name and value transformations (string building normalised); to_static_assertion_value handles every value type occurring in properties.yaml options and fails otherwise; documented string choices map to distinct constants and no per-language validation hook stores a fixed value over a configured option; assertions are emitted exactly when the support header is included and outside any further preprocessor conditional; inside the per-option loops the option value reaches the header text only as the integer to_static_assertion_value makes of it (a raw value with its own quotes would stop identical option sets from compiling). The compiler's rejection itself is declined.",
         note="Trusted: bundled Jinja parser, PyYAML.", ref="4/C17"),
     "C18": dict(
         tech="dominance rules on the Python data-object template (admission check dominates backing-field assignment; union exclusivity loops)",
-        text="Decides on every rendered path of py/templates/base.j2: each setter's assignment to the backing field is dominated by the kind's admission check with ValueError on the other branch; assign_array compares the length with == on fixed and <= on variable array paths, its zero-copy buffer path admits only bytes/bytearray and 8-bit elements, and a str is encoded only for string_like arrays; __init__ routes through setters; union setters clear every other option over the unfiltered field list and only after the new value passed validation; update_from_builtin / _to_builtin_impl walk the unfiltered field list, skip a field only when the source has no entry for it, apply every kind, reject leftovers, and produce a str only where the model is string_like; the pickled model is the generating type and _restore_constant_ inverts filter_pickle's layers. Run-time object round trips are declined.",
+        text="Decides on every rendered path of py/templates/base.j2: each setter's assignment to the backing field is dominated by the kind's admission check with ValueError on the other branch; assign_array compares the length with == on fixed and <= on variable array paths, its zero-copy buffer path admits only bytes/bytearray and 8-bit elements, and a str is encoded only for string_like arrays; __init__ routes through setters; union setters clear every other option over the unfiltered field list and only after the new value passed validation; update_from_builtin / _to_builtin_impl walk the unfiltered field list, skip a field only when the source has no entry for it, apply every kind, reject leftovers, and produce a str only where the model is string_like; the pickled model is the generating type, computed per call (no memo keyed on the type, helpers included), and _restore_constant_ inverts filter_pickle's layers; float setters are decided with the width condition evaluated over {16, 32, 64}. Run-time object round trips are declined.",
         note="Trusted: bundled Jinja parser; Python text in templates is tokenised line-wise.", ref="4/C18"),
     "C19": dict(
-        tech="confinement of the lexer/parser modifications: regex-AST rule on lexer alternatives, guard rule on autoindent(), shape rule on the extensions",
-        text="Decides that Nunavut's modifications cannot be reached by input without the marker: every non-stock lexer alternative requires a literal `*` after the start string; the unmarked alternative of every block opener is built on the same lstrip-aware prefix expression; the lexer cache key covers every environment attribute the Lexer constructor reads; autoindent() is called only under the marker test; lineprefix nodes are built only there, a single node is appended and a node list spliced as in stock; do_lineprefix keeps Markup values Markup and leaves empty lines unprefixed; assert/ifuses produce ordinary conditionals. Output equivalence with upstream on all templates is declined (upstream snapshot unavailable offline).",
+        tech="confinement of the lexer/parser modifications: regex-AST rule on lexer alternatives, per-path abstract interpretation of subparse (parsed / list / wrapped value vs. marker status of the path), node-kind rule for the assert tag against the bundled compiler's output suppression, terminator-set agreement in the lexer",
+        text="Decides that Nunavut's modifications cannot be reached by input without the marker: every non-stock lexer alternative requires a literal `*` after the start string; the unmarked alternative of every block opener is built on the same lstrip-aware prefix expression; the lexer cache key covers every environment attribute the Lexer constructor reads; on every path of subparse's variable and block branches a construct is wrapped in the lineprefix filter exactly when the path establishes the marker (a marker test and-ed with another condition is reported), unmarked constructs reach the body unchanged (a single node appended, a node list spliced, as in stock), and the prefix is the marker token minus its three marker characters through any helper chain; under keep_trailing_newline the lexer restores the final line break for exactly the terminators of its newline_re; do_lineprefix keeps Markup values Markup and leaves empty lines unprefixed; the assert tag compiles to a node kind the compiler runs wherever a conditional runs (not an Output, which is dropped at the top level of a child template), raises exactly on falsy values and contributes no text; ifuses produces ordinary nodes.If chains. Output equivalence with upstream on all templates is declined (upstream snapshot unavailable offline).",
         note="Trusted: CPython ast, re._parser.", ref="4/C19"),
     "C20": dict(
-        tech="taint + guard analysis of HTML templates (autoescape resolution, escape on every DSDL free-text sink and preserved by later filters), per-block tag balance, symbolic string agreement of the anchor/url filters, link rule on rendered text paths",
-        text="Decides: where autoescaping is off for a template, every output of DSDL free text passes through an escaping filter that no later filter undoes (striptags decodes entities) and markup-returning filters escape what they interpolate; static markup of each Jinja block is balanced; url_from_type and tag_id evaluate to the same anchor string (format / f-string / helper spellings alike); the link does not hard-code the namespace page name; on every rendered path an href derived from url_from_type is exactly <depth prefix of the containing page><url>; a service's request/response link to the service's own entry. Well-formedness of complete pages is declined.",
+        tech="taint + guard analysis of HTML templates (autoescape resolution, escape on every DSDL free-text sink and preserved by later filters), per-block tag balance, symbolic string agreement of the anchor/url filters, link rule on rendered text paths, permutation rule on the listing filters",
+        text="Decides: where autoescaping is off for a template, every output of DSDL free text passes through an escaping filter that no later filter undoes (striptags decodes entities) and markup-returning filters escape what they interpolate; static markup of each Jinja block is balanced; url_from_type and tag_id evaluate to the same anchor string (format / f-string / helper spellings alike); the link does not hard-code the namespace page name; on every rendered path an href derived from url_from_type is exactly <depth prefix of the containing page><url>; a service's request/response link to the service's own entry; the sort filters that order the listed types and namespaces return a permutation of their input (a dropped type has no anchor). Well-formedness of complete pages is declined.",
         note="Trusted: bundled Jinja parser, html.parser tokenizer for static markup.", ref="4/C20"),
 }
 
